@@ -356,8 +356,10 @@ def run_fl(dbits, image, dump, reqs, mem_nbytes=1 << 16, abits=32):
       fl.write(AT(a), k, DT(d)[0:k * 8])
       out.append([t, o, 0, 0, 0])
     else:
-      v = fl.amo(mk_bits(4)(t), AT(a), k, DT(d))
-      out.append([t, o, 0, l, int(v)])
+      # amo(type, addr, nbytes, Bits(8*nbytes)): the operand is the low k bytes of the data field, as up_mem passes it
+      v = fl.amo(mk_bits(4)(t), AT(a), k, DT(d)[0:k * 8])
+      if v.nbits != 8 * k: raise AssertionError(f'MagicMemoryFL.amo of {k} bytes returned Bits{v.nbits}')
+      out.append([t, o, 0, l, int(zext(v, dbits))])
   return out, get_image(fl, fl, dump)
 
 def run_alias(cfg, image, dump, max_cycles=3000):
